@@ -120,7 +120,64 @@ pub fn check_c16(c: &Concrete, hash_seeds: &[u64]) -> (Vec<Violation>, Outcome, 
             format!("same scenario, same hash seed, after {} other compilations: {}", hash_seeds.len(), first_diff(&ref_obs, &obs)),
         ));
     }
+    // history: a brand-new thread that never compiled anything, against a brand-new thread that first
+    // compiled four fixed programs of other shapes (other module layouts, rejected, std-free)
+    let c1 = c.clone();
+    let fresh = crate::exec::in_fresh_thread(move || execute(&c1).observation());
+    let c2 = c.clone();
+    let used = crate::exec::in_fresh_thread(move || {
+        for (_, canary) in canaries() {
+            let _ = execute(&canary);
+        }
+        execute(&c2).observation()
+    });
+    match (fresh, used) {
+        (Some(f), Some(u)) => {
+            if f != u {
+                vs.push(v(
+                    "C16",
+                    "history",
+                    "fresh-thread-vs-after-other-compilations",
+                    format!("same scenario, same hash seed; compiled first in a new thread vs after four other programs in a new thread: {}", first_diff(&f, &u)),
+                ));
+            } else if f != ref_obs {
+                vs.push(v(
+                    "C16",
+                    "history",
+                    "worker-thread-history",
+                    format!("same scenario, same hash seed; in a new thread vs in the long-lived worker thread: {}", first_diff(&f, &ref_obs)),
+                ));
+            }
+        }
+        _ => {
+            vs.push(v("C16", "history", "thread-died", "a compilation in a fresh thread did not return".into()));
+        }
+    }
     (vs, reference, distinct.len())
+}
+
+/// Fixed programs compiled between two compilations of the scenario under test: a one-file
+/// program, a three-file project, a rejected two-file project, a std-free program.
+pub fn canaries() -> Vec<(&'static str, Concrete)> {
+    let root = crate::scenario::SIM_ROOT;
+    let mut out = Vec::new();
+    let mut a = Concrete::new(&format!("{}/canary-a/main.sy", root));
+    a.files.insert(a.main.clone(), "start :: fn do\n    x := 1\n    x <=> 1\nend\n".into());
+    out.push(("one-file", a));
+    let mut b = Concrete::new(&format!("{}/canary-b/main.sy", root));
+    b.files.insert(b.main.clone(), "use one\nuse sub/two\nstart :: fn do\n    one.a + two.b <=> 3\nend\n".into());
+    b.files.insert(format!("{}/canary-b/one.sy", root), "a :: 1\n".into());
+    b.files.insert(format!("{}/canary-b/sub/two.sy", root), "use /one\nb :: one.a + 1\n".into());
+    out.push(("three-files", b));
+    let mut c = Concrete::new(&format!("{}/canary-c/main.sy", root));
+    c.files.insert(c.main.clone(), "use other\nmax :: 1\nstart :: fn do\n    y: str = other.nope\n    1 +\nend\n".into());
+    c.files.insert(format!("{}/canary-c/other.sy", root), "A :: blob { f: Zork }\n".into());
+    out.push(("rejected-two-files", c));
+    let mut d = Concrete::new(&format!("{}/canary-d/main.sy", root));
+    d.no_std = true;
+    d.files.insert(d.main.clone(), "start :: fn do\n    l := [1, 2]\nend\n".into());
+    out.push(("no-std", d));
+    out
 }
 
 // ------------------------------------------------------------------------------------
@@ -262,7 +319,7 @@ pub fn check_c20a(c: &Concrete, preamble: &str) -> LayerA {
                 m.clone()
             }
             None => {
-                let m = if c.hash_seed % 2 == 0 { "zz_mod" } else { "zz_mod.lua" };
+                let m = crate::layerb::REQUIRE_NAMES[(c.hash_seed % crate::layerb::REQUIRE_NAMES.len() as u64) as usize];
                 calt.require = Some(m.to_string());
                 m.to_string()
             }
